@@ -88,6 +88,24 @@ def check_mape(y, p, w):
     const = numpy.sum(numpy.abs(y[1:] - y[:-1]) * ww[1:]) == 0
     if not const and v1 != 1:
         return dict(**{"class": "mape-naive"}, what="naive forecast scores %r" % (v1,))
+    # the naive forecast with missing entries (no previous value for the first step, gaps): steps whose forecast and
+    # previous forecast both exist are scored; whenever they carry some variation the score is still exactly 1
+    n = len(y)
+    for missing in ([0], [0, 1], [n // 2], [0, n - 1]):
+        if max(missing) >= n:
+            continue
+        nv = naive.copy()
+        nv[missing] = numpy.nan
+        nan = numpy.isnan(nv)
+        scored = ~nan[1:] & ~nan[:-1]
+        if not scored.any():
+            continue
+        var = numpy.sum((numpy.abs(y[1:] - y[:-1]) * ww[1:])[scored])
+        v2 = ts_mape(y, nv, sample_weight=w)
+        if var != 0 and v2 != 1:
+            return dict(**{"class": "mape-naive-missing"}, what="naive forecast with NaN at %r scores %r" % (missing, v2))
+        if not (v2 >= 0):
+            return dict(**{"class": "mape-negative"}, what="ts_mape=%r with NaN at %r" % (v2, missing))
     return None
 
 
